@@ -10,10 +10,16 @@ THEOREMS_DEPEND_ON = []
 COMP_HIST = 61
 
 
+PW_BASE = 100000
+
+
 def mkmsg(t, eot, uid):
     import mido
     if eot:
         return mido.MetaMessage('end_of_track', time=t)
+    if uid >= PW_BASE:
+        # a pitchwheel message, identified by its channel only: its pitch is free for edits between values that Python hashes alike (-1 and -2)
+        return mido.Message('pitchwheel', channel=(uid - PW_BASE) % 16, pitch=-1, time=t)
     if uid % 4 == 0:
         return mido.MetaMessage('set_tempo', tempo=100000 + 16 * uid, time=t)      # tempo changes anywhere in the file
     return mido.Message('note_on', channel=(uid >> 7) & 15, note=uid & 127, velocity=64, time=t)
@@ -22,6 +28,8 @@ def mkmsg(t, eot, uid):
 def uid_of(m):
     if m.type == 'end_of_track':
         return None
+    if m.type == 'pitchwheel':
+        return PW_BASE + m.channel
     if m.type == 'set_tempo':
         return (m.tempo - 100000) // 16
     return (m.channel << 7) | m.note
@@ -130,6 +138,8 @@ def impl_hist(case):
                         m.tempo = (m.tempo // 16) * 16 + v % 16
                     elif m.type == 'note_on':
                         m.velocity = v
+                    elif m.type == 'pitchwheel':
+                        m.pitch = -2 if m.pitch == -1 else (-1 if v % 2 else 64 * v - 8192)
                 i += 4
             elif k == 6:
                 mf.type = l[i + 1]; i += 2
@@ -181,7 +191,7 @@ def random_history(rng):
 
     def ev():
         uid[0] += 1
-        return [rng.choice([0, 0, 1, 5, 96, 480]), 1 if rng.random() < 0.15 else 0, uid[0]]
+        return [rng.choice([0, 0, 1, 5, 96, 480]), 1 if rng.random() < 0.15 else 0, PW_BASE + rng.randrange(16) if rng.random() < 0.15 else uid[0]]
     nt = 0
     for _ in range(rng.randrange(2, 16)):
         r = rng.random()
@@ -199,12 +209,13 @@ def random_history(rng):
         elif r < 0.72:
             ti_ = rng.randrange(nt)
             case += [5, ti_, rng.randrange(0, 3), rng.choice([0, 7, 100])]
+            if rng.random() < 0.1:
+                # times that Python hashes alike: 0 and 2**61 - 1
+                case += [9, 5, ti_, rng.randrange(0, 3), rng.choice([0, 2 ** 61 - 1])]
             if rng.random() < 0.5:
                 case += [5, ti_, rng.randrange(0, 3), rng.choice([0, 7, 100])]
-        elif r < 0.74:
+        elif r < 0.76:
             case += [8, rng.randrange(nt), rng.randrange(0, 3), rng.randrange(128)]
-        elif r < 0.745:
-            pass
         elif r < 0.77:
             case += [6, rng.choice([0, 1, 1, 2])]
         elif r < 0.8:
@@ -230,11 +241,13 @@ def run(out):
              [1, 480, 0, 1, 96, 0, 1, 9, 0, 1, 200, 0, 2, 9],                     # observe, tracks.append, observe
              [1, 480, 0, 2, 96, 0, 1, 96, 0, 2, 9, 5, 0, 1, 500, 9, 4, 0, 0, 9],  # observe, edit a time, observe, delete, observe
              [1, 480, 0, 2, 10, 0, 1, 100, 0, 2, 0, 2, 50, 0, 3, 60, 0, 4, 9, 10, 0, 0, 96, 9, 11, 1, 0, 9, 12, 0, 9],   # observe, move ticks, swap, reverse
-             [1, 480, 0, 3, 5, 0, 1, 100, 1, 2, 30, 0, 3, 9, 9]]                  # a mid-track end_of_track with a delta: observe twice
+             [1, 480, 0, 3, 5, 0, 1, 100, 1, 2, 30, 0, 3, 9, 9],                  # a mid-track end_of_track with a delta: observe twice
+             [1, 480, 0, 2, 5, 0, PW_BASE + 3, 7, 0, 2, 9, 8, 0, 0, 1, 9, 8, 0, 0, 1, 9],   # a pitch edited from -1 to -2 and back (equal hashes)
+             [1, 480, 0, 2, 0, 0, 1, 7, 0, 2, 9, 5, 0, 0, 2 ** 61 - 1, 9, 5, 0, 0, 0, 9]]   # a time edited from 0 to 2**61-1 and back (equal hashes)
     cases += [random_history(rng) for _ in range(n)]
     for tag, rec in core.pmap(job, chunk_jobs(cases, 'history', COMP_HIST)):
         core.merge_into(out, rec, tag)
-    out.rule = ('%d histories of 2-16 documented edits on one MidiFile (tracks.append, del tracks[i], add_track(), track.insert, del track[j], msg.time = t, msg.velocity / msg.tempo = v, '
+    out.rule = ('%d histories of 2-16 documented edits on one MidiFile (tracks.append, del tracks[i], add_track(), track.insert, del track[j], msg.time = t, msg.velocity / msg.tempo / msg.pitch = v (incl. edits between values with equal hashes: pitch -1/-2, time 0/2**61-1), '
                 'type, ticks_per_beat) interleaved with observations; at each observation merged_track is compared with the model, and merged_track, '
                 'iteration, length, play and the saved bytes are compared with a freshly built MidiFile holding a deep copy of the same contents; the order of '
                 'the first observation (length / iteration / merged_track) is varied. Non-trivial: every history; distinct by content.' % len(cases))
